@@ -19,8 +19,9 @@ def main(tier_):
     # names, paths at and beyond PATH_MAX -- library on both backends against the raw openat2 of the kernel
     from checks.lookup_static import op_to_calls
     n255 = "n" * 255
-    ltree = [dict(id=5, p=2, n="d", k="dir"), dict(id=6, p=5, n="f", k="file"), dict(id=7, p=2, n=n255, k="file"), dict(id=8, p=5, n="up", k="lnk", b="../d/./f")]
-    lpaths = ["./" * 2000 + "d/f", "d/../" * 800 + "d/f", n255, n255 + "x", "d" + "/" * 3000 + "f", "d/" + "./" * 1000 + "up", "x" * 4095, "d/" * 2047 + "f", "/" * 4090 + "d", "d/up/" + "../" * 1300 + "d/f"]
+    ltree = [dict(id=5, p=2, n="d", k="dir"), dict(id=6, p=5, n="f", k="file"), dict(id=11, p=5, n="ff", k="file"), dict(id=7, p=2, n=n255, k="file"), dict(id=8, p=5, n="up", k="lnk", b="../d/./f"),
+             dict(id=9, p=2, n="big", k="lnk", b="./" * 2046 + "d/f"), dict(id=10, p=2, n="big1", k="lnk", b="./" * 2045 + "d/ff")]     # 4095- and 4094-byte bodies
+    lpaths = ["./" * 2000 + "d/f", "d/../" * 800 + "d/f", n255, n255 + "x", "d" + "/" * 3000 + "f", "d/" + "./" * 1000 + "up", "x" * 4095, "d/" * 2047 + "f", "/" * 4090 + "d", "d/up/" + "../" * 1300 + "d/f", "big", "big1", "d/../big"]
     lops = [dict(op="resolve", nofollow=False, nosym=False), dict(op="resolve", nofollow=True, nosym=True), dict(op="open", acc="RDONLY", odir=False, nofollow=False, nosym=False), dict(op="readlink", nofollow=True, nosym=False)]
     lcases = []
     for bname, feat in (("kernel", {"openat2": True}), ("emulated", {"openat2": False})):
